@@ -14,10 +14,18 @@ import (
 )
 
 const (
-	RepoDir    = "/repo"
 	HarnessDir = "/verif/harness"
 	ModPath    = "github.com/WICG/webpackage"
 )
+
+// RepoDir is the tree under verification: /repo.  GOSYM_REPO_DIR points exploratory runs at a copy (never set by
+// the registered commands).
+var RepoDir = func() string {
+	if d := os.Getenv("GOSYM_REPO_DIR"); d != "" {
+		return d
+	}
+	return "/repo"
+}()
 
 // HarnessFile is one harness source file and the repo package directory it is overlaid into.
 type HarnessFile struct {
